@@ -417,8 +417,128 @@ def split_batch_scenario(idx, add, stats):
                 {'units': again, 'error': str(r2.exc)[:200]})
 
 
+FORMS = ('py', 'raw', 'file')
+
+
+def form_history(forms):
+    """One app (va, model Item) with one evolution per entry of `forms`:
+    'py' adds a column n<i> (AddField), 'raw' inserts a marker row through
+    an SQLMutation, 'file' ships the same INSERT as <label>.sql."""
+    v0 = P(A('va', [M('Item', [F('a', 'Char', max_length=20),
+                               F('b', 'Int', null=True)])]))
+    steps = []
+    for i, form in enumerate(forms, 1):
+        el = 'e%d' % i
+        ins = "INSERT INTO va_item (a) VALUES ('marker%d');" % i
+        if form == 'py':
+            mjs = [['AddField', 'Item', 'n%d' % i, 'Int', {'null': True},
+                    None]]
+        elif form == 'raw':
+            mjs = [['SQLRaw', 'raw%d' % i, [ins]]]
+        else:
+            mjs = [['SQLFile', {el + '.sql': ins + '\n'}]]
+        steps.append(('va', el, mjs))
+    return EB.History(v0, steps)
+
+
+def form_executions(forms, statements):
+    """How often the SQL of each evolution occurs in a statement trace."""
+    n = {}
+    for i, form in enumerate(forms, 1):
+        el = 'e%d' % i
+        if form == 'py':
+            col = '"n%d"' % i
+            # the column is added by this statement (ALTER TABLE ADD COLUMN
+            # or a rebuild whose new table has it and whose copy does not
+            # read it)
+            cnt = 0
+            texts = [st[0] if isinstance(st, tuple) else str(st)
+                     for st in statements]
+            for k, t in enumerate(texts):
+                if t.startswith('ALTER TABLE') and 'ADD COLUMN' in t and \
+                        col in t:
+                    cnt += 1
+                elif t.startswith('CREATE TABLE "TEMP_TABLE"') and col in t:
+                    copy = [u for u in texts[k + 1:k + 3]
+                            if u.startswith('INSERT INTO "TEMP_TABLE"')]
+                    if not copy or col not in copy[0].split('SELECT')[-1]:
+                        cnt += 1
+            n[el] = cnt
+        else:
+            mark = "'marker%d'" % i
+            n[el] = sum(1 for st in statements
+                        if mark in (st[0] if isinstance(st, tuple)
+                                    else str(st)))
+    return n
+
+
+def fresh_install_scenario(idx, add, stats):
+    """An app installed fresh has its whole sequence recorded and none of
+    it executed, whatever form the evolutions are shipped in (Python
+    mutations, raw SQL mutation, SQL file); from an older version every
+    pending evolution runs exactly once; a second run executes nothing."""
+    forms = [(f1, f2) for f1 in FORMS for f2 in FORMS][idx]
+    hist = form_history(forms)
+    for driver in ('D2', 'D3'):
+        for start in (None, 0, 1):
+            B.fresh_db('default')
+            replay = {'scenario': 'fresh-install', 'forms_index': idx,
+                      'driver': driver, 'start': start}
+            ctx = '%s|start=%s|%s' % ('+'.join(forms),
+                                      'empty' if start is None else
+                                      'v%d' % start, driver)
+            if start is not None:
+                hist.install(start)
+                B.reset_globals()
+                r0 = D.d2_all()
+                stats['upgrade_runs'] += 1
+                if not r0.ok:
+                    stats['failed_runs'] += 1
+                    continue
+            hist.install(2)
+            B.reset_globals()
+            tracer = O.Tracer('default')
+            res = D.d2_all(tracer=tracer) if driver == 'D2' else \
+                D.d3(tracer=tracer)
+            stats['upgrade_runs'] += 1
+            if not res.ok:
+                stats['failed_runs'] += 1
+                add('C08|upgrade-fails|%s|fresh-install:%s' % (
+                    res.exc_type, ctx), replay,
+                    {'error': str(res.exc)[:300]})
+                continue
+            got = form_executions(forms, tracer.effects())
+            pending = {'e1': 0 if start in (None, 1) else 1,
+                       'e2': 0 if start is None else 1}
+            for el in ('e1', 'e2'):
+                if got[el] != pending[el]:
+                    kind = 'fresh-app-executes-evolutions' \
+                        if start is None else (
+                            'recorded-evolution-executed-again'
+                            if pending[el] == 0 else
+                            'evolution-sql-executed-%d-times' % got[el])
+                    add('C08|%s|fresh-install:%s|%s' % (
+                        kind, ctx, forms[int(el[1]) - 1]), replay,
+                        {'label': el, 'executed': got[el],
+                         'expected': pending[el]})
+            rows = (O.bookkeeping_dump('default')['evolutions'] or [])
+            mine = sorted((a, l) for (a, l, v) in rows if a == 'va')
+            if mine != [('va', 'e1'), ('va', 'e2')]:
+                add('C08|recorded-labels-differ-from-reference|'
+                    'fresh-install:%s' % ctx, replay, {'got': mine})
+            B.reset_globals()
+            t2 = O.Tracer('default')
+            r2 = D.d2_all(tracer=t2) if driver == 'D2' else D.d3(tracer=t2)
+            stats['upgrade_runs'] += 1
+            again = form_executions(forms, t2.effects())
+            if not r2.ok or any(again.values()):
+                add('C08|second-run-executes-again|fresh-install:%s' % ctx,
+                    replay, {'executed': again,
+                             'error': str(r2.exc)[:200]})
+
+
 def work(task):
-    if task[0] == 'split':
+    if task[0] in ('split', 'fresh'):
         stats = {'events': 0, 'states': 0, 'upgrade_runs': 0,
                  'failed_runs': 0, 'command_events': 0, 'max_depth': 0,
                  'samples': [], 'dedup_hits': 0, 'split_batch_scenarios': 1}
@@ -431,7 +551,10 @@ def work(task):
                             'detail': detail, 'size': len(S.canon(replay))}
             else:
                 ent['count'] += 1
-        split_batch_scenario(task[1], add, stats)
+        if task[0] == 'fresh':
+            fresh_install_scenario(task[1], add, stats)
+        else:
+            split_batch_scenario(task[1], add, stats)
         return stats, viol
     variant, depth, first = task
     hist = project_history(variant)
@@ -454,6 +577,8 @@ def run(tier, seed, confirm=True):
             tasks.append((variant, depth, list(ev)))
     for i in range(len(SPLIT_DEPS)):
         tasks.append(('split', i, None))
+    for i in range(len(FORMS) ** 2):
+        tasks.append(('fresh', i, None))
     total = {}
     coll = findings.Collector(PROP)
     for stats, viol in explore.run_tasks('vf.checks.c08.work', tasks,
@@ -475,7 +600,10 @@ def run(tier, seed, confirm=True):
                     'variants, three code versions each; plus %d '
                     'split-batch scenarios (pending evolutions of one app '
                     'separated by migration dependencies) x 2 start '
-                    'states' % len(SPLIT_DEPS),
+                    'states; plus %d evolution-form pairs (Python / raw '
+                    'SQL mutation / SQL file) x {empty database, v0, v1} x '
+                    '{Evolver, evolve command}' % (len(SPLIT_DEPS),
+                                                   len(FORMS) ** 2),
     }
     print('C08 %s: depth %d, %d events, %d states, %d upgrade runs (%d '
           'failed), %d mark/wipe commands' % (
@@ -499,6 +627,18 @@ def replay(path):
         split_batch_scenario(r['deps_index'],
                              lambda fp, rp, d: found.setdefault(fp, d),
                              {'upgrade_runs': 0, 'failed_runs': 0})
+        for fp, d in found.items():
+            print('  %s %s' % (fp, str(d)[:300]))
+        if doc['fingerprint'] in found:
+            print('REPRODUCED %s' % doc['fingerprint'])
+            return 1
+        print('NOT-REPRODUCED')
+        return 0
+    if r.get('scenario') == 'fresh-install':
+        found = {}
+        fresh_install_scenario(r['forms_index'],
+                               lambda fp, rp, d: found.setdefault(fp, d),
+                               {'upgrade_runs': 0, 'failed_runs': 0})
         for fp, d in found.items():
             print('  %s %s' % (fp, str(d)[:300]))
         if doc['fingerprint'] in found:
